@@ -77,6 +77,9 @@ func valBytes(id int) []byte {
 	if id == 1 {
 		return []byte{0x01}
 	}
+	if id == 5 { // shares its first 31 bytes with value 2
+		return append(bytes.Repeat([]byte{0x22}, 31), bytes.Repeat([]byte{0x55}, valLen[4]-31)...)
+	}
 	return bytes.Repeat([]byte{byte(0x11 * id)}, valLen[id-1])
 }
 
@@ -195,9 +198,10 @@ func (w *world) observe() map[string]interface{} {
 		obs["itererr"] = it.Err.Error()
 	}
 	obs["iter"] = iter
-	obs["root"] = hex.EncodeToString(w.view().Hash().Bytes())
+	// roots travel as their first 10 bytes (80 bits) to keep the trace small; vectors and Hash events carry all 32
+	obs["root"] = hex.EncodeToString(w.view().Hash().Bytes()[:10])
 	// auxiliary oracle (outside the specification): the standard root of the content the trie itself reports
-	obs["ref"] = hex.EncodeToString(refRoot(pairs))
+	obs["ref"] = hex.EncodeToString(refRoot(pairs)[:10])
 	return obs
 }
 
@@ -360,7 +364,7 @@ func (w *world) apply(op *Op, tamper int) (ev map[string]interface{}) {
 		seterr(err)
 		ev["res"] = valID(v)
 	case "Hash":
-		ev["res"] = hex.EncodeToString(w.h.Hash().Bytes())
+		ev["res"] = hex.EncodeToString(w.h.Hash().Bytes()[:10])
 	case "Iterate":
 		it := rtrie.NewIterator(w.h.NodeIterator(nil))
 		n := 0
@@ -494,7 +498,6 @@ func run(env *drive.Env) error {
 		env.Emit(map[string]interface{}{"ev": "Begin", "variant": beh.Variant, "rank": rank})
 		for i := range beh.Ops {
 			ev := w.apply(&beh.Ops[i], beh.Tamper)
-			ev["i"] = i
 			env.Emit(ev)
 			if ev["panic"] != nil {
 				break
